@@ -260,7 +260,17 @@ pub fn cases_c15(tys: &[Ty], cl: &Classes, rng: &mut StdRng, sample: bool) -> Ve
                     alts.push(("two_pow_63", i64::MIN.to_le_bytes().to_vec()));
                     alts.push(("u64_max", (-1i64).to_le_bytes().to_vec()));
                 }
-                ("u8", 1) => { alts.push(("other_valid", vec![orig[0].wrapping_add(1)])); }
+                ("u8", 1) => {
+                    // (the only u8 leaves are revocation-secret indices) neighbours and the ends of the range
+                    for v in [orig[0].wrapping_add(1), 255, 254, 0, 128] { alts.push(("other_valid", vec![v])); }
+                }
+                ("len", 8) if !t.name.contains("Vec<") => {
+                    // fixed-length arrays: any other element count is a different, non-canonical encoding
+                    let mut a = [0u8; 8];
+                    a.copy_from_slice(orig);
+                    let n = u64::from_le_bytes(a);
+                    for v in [n + 1, n.wrapping_sub(1), 0, n + 2, 1 << 40, u64::MAX] { alts.push(("len_other", v.to_le_bytes().to_vec())); }
+                }
                 ("tag", 4) => { alts.push(("tag_out_of_range", 7u32.to_le_bytes().to_vec())); alts.push(("other_valid", 1u32.to_le_bytes().to_vec())); }
                 _ => {}
             }
